@@ -426,3 +426,165 @@ var propRaw = vk.Register(&vk.Prop[RawCase]{Property: property, Name: "rawcookie
 
 func TestRawCookie(t *testing.T) { propRaw.Run(t) }
 func FuzzRawCookie(f *testing.F) { propRaw.Fuzz(f) }
+
+// ---- sequences of cookies on one server (the context and its message slice are recycled) -------------------------
+
+type SeqMsg struct {
+	K, V   string
+	Level  uint8
+	Old    bool
+	Fields []string // which of key|value|level|isOldInput the map carries, in this order (others keep their zero value)
+}
+
+type SeqStep struct {
+	Kind string   // valid | cut | none | blank
+	Msgs []SeqMsg `json:",omitempty"`
+	Cut  int      `json:",omitempty"` // cut: number of bytes kept (0 < Cut < len(encoding))
+}
+
+type SeqCase struct{ Steps []SeqStep }
+
+func encodeSeq(ms []SeqMsg) []byte {
+	b := []byte{0x90 | byte(len(ms))}
+	str := func(s string) { b = append(b, 0xa0|byte(len(s))); b = append(b, s...) }
+	for _, m := range ms {
+		b = append(b, 0x80|byte(len(m.Fields)))
+		for _, f := range m.Fields {
+			str(f)
+			switch f {
+			case "key":
+				str(m.K)
+			case "value":
+				str(m.V)
+			case "level":
+				b = append(b, m.Level)
+			case "isOldInput":
+				if m.Old {
+					b = append(b, 0xc3)
+				} else {
+					b = append(b, 0xc2)
+				}
+			}
+		}
+	}
+	return b
+}
+
+func has(fs []string, f string) bool {
+	for _, x := range fs {
+		if x == f {
+			return true
+		}
+	}
+	return false
+}
+
+func checkSeq(c SeqCase) vk.Verdict {
+	var s seen
+	app := newApp(Case{}, &s)
+	v := vk.Verdict{}
+	cutBefore, afterCut := false, false
+	for i, st := range c.Steps {
+		var hdr [][2]string
+		var cookie []byte
+		var wantM, wantI []string
+		switch st.Kind {
+		case "valid", "blank":
+			cookie = encodeSeq(st.Msgs)
+			for _, m := range st.Msgs {
+				k, val, lvl, old := "", "", uint8(0), false
+				if has(m.Fields, "key") {
+					k = m.K
+				}
+				if has(m.Fields, "value") {
+					val = m.V
+				}
+				if has(m.Fields, "level") {
+					lvl = m.Level
+				}
+				if has(m.Fields, "isOldInput") {
+					old = m.Old
+				}
+				if old {
+					wantI = append(wantI, fmt.Sprintf("%q=%q", k, val))
+				} else {
+					wantM = append(wantM, fmt.Sprintf("%q=%q@%d", k, val, lvl))
+				}
+			}
+			if cutBefore {
+				afterCut = true
+			}
+		case "cut":
+			full := encodeSeq(st.Msgs)
+			if st.Cut <= 0 || st.Cut >= len(full) {
+				return vk.Verdict{Skip: true}
+			}
+			cookie = full[:st.Cut] // a proper prefix of an encoding announces more than it holds: not well-formed
+			cutBefore = true
+		}
+		if st.Kind != "none" {
+			hdr = [][2]string{{"Cookie", "fiber_flash=" + string(cookie)}}
+		}
+		sort.Strings(wantM)
+		sort.Strings(wantI)
+		s.msgs, s.inputs = []string{"(handler did not run)"}, nil
+		out, err := vk.Wire(app, vk.Req("GET", "/next", hdr, nil))
+		if err != nil {
+			return vk.Failf("step %d: %v", i, err)
+		}
+		if !bytes.HasPrefix(out, []byte("HTTP/1.1 200")) {
+			return vk.Failf("step %d (%s cookie %q) answered %q", i, st.Kind, cookie, firstLine(out))
+		}
+		// duplicate old-input keys collapse in OldInputs(); compare as sets of distinct lines
+		if strings.Join(s.msgs, "|") != strings.Join(wantM, "|") || strings.Join(dedup(s.inputs), "|") != strings.Join(dedup(wantI), "|") {
+			return vk.Failf("step %d of %d (%s cookie %q): the handler sees messages %v and old input %v, this cookie alone carries %v and %v\nsteps: %+v", i, len(c.Steps), st.Kind, cookie, s.msgs, s.inputs, wantM, wantI, c.Steps)
+		}
+	}
+	v.NonTrivial = afterCut
+	if afterCut {
+		v.Classes = append(v.Classes, "well-formed-after-malformed")
+	}
+	v.Classes = append(v.Classes, fmt.Sprintf("steps:%d", len(c.Steps)))
+	return v
+}
+
+func dedup(in []string) []string {
+	var out []string
+	for _, x := range in {
+		if len(out) == 0 || out[len(out)-1] != x {
+			out = append(out, x)
+		}
+	}
+	return out
+}
+
+func genSeq(t *rapid.T) SeqCase {
+	var c SeqCase
+	n := rapid.IntRange(2, 6).Draw(t, "nsteps")
+	tok := rapid.StringMatching(`[a-z0-9]{1,6}`)
+	for i := 0; i < n; i++ {
+		st := SeqStep{Kind: rapid.SampledFrom([]string{"valid", "valid", "cut", "cut", "blank", "blank", "none"}).Draw(t, "kind")}
+		if st.Kind != "none" {
+			nm := rapid.IntRange(1, 4).Draw(t, "nm")
+			for j := 0; j < nm; j++ {
+				m := SeqMsg{K: fmt.Sprintf("k%d%s", i, tok.Draw(t, "k")), V: fmt.Sprintf("v%d%s", i, tok.Draw(t, "v")), Level: uint8(rapid.SampledFrom([]int{0x21, 0x23, 0x30, 0x31, 0x41, 0x5a, 0x61, 0x7e}).Draw(t, "lvl")), Old: rapid.IntRange(0, 3).Draw(t, "old") == 0}
+				all := []string{"key", "value", "level", "isOldInput"}
+				if st.Kind == "blank" {
+					m.Fields = rapid.SliceOfNDistinct(rapid.SampledFrom(all), 0, 2, rapid.ID[string]).Draw(t, "fields")
+				} else {
+					m.Fields = rapid.Permutation(all).Draw(t, "fields")
+				}
+				st.Msgs = append(st.Msgs, m)
+			}
+			if st.Kind == "cut" {
+				st.Cut = rapid.IntRange(1, len(encodeSeq(st.Msgs))-1).Draw(t, "cut")
+			}
+		}
+		c.Steps = append(c.Steps, st)
+	}
+	return c
+}
+
+var propSeq = vk.Register(&vk.Prop[SeqCase]{Property: property, Name: "cookiesequence", Gen: genSeq, Check: checkSeq, Quick: 6000, Thorough: 60000})
+
+func TestCookieSequence(t *testing.T) { propSeq.Run(t) }
